@@ -333,8 +333,18 @@ impl Observer for IrqObserver {
         }
     }
 
-    fn finish(&mut self, cpu: &mut Cpu, g: &Guest, outcome: &Outcome, _last: Option<&Row>, _tail: &[String]) -> Result<(), Failure> {
+    fn finish(&mut self, cpu: &mut Cpu, g: &Guest, outcome: &Outcome, last: Option<&Row>, _tail: &[String]) -> Result<(), Failure> {
         let mode = self.mode;
+        // an entry in the very last iteration is not seen at a loop top: if the run died because PC was
+        // loaded with more than the low 24 bits of the vector entry, say so
+        if let (Outcome::Err(_), Some(l)) = (outcome, last) {
+            let pc = cpu.verif_pc().wrapping_sub(2);
+            if pc > 0x00ff_ffff && cpu.er[7] == l.sp.wrapping_sub(4) {
+                if let Some(h) = g.handler_at(pc & 0x00ff_ffff) {
+                    return Err(fail(mode, "vector", format!("iteration {}: the entry for vector {} left PC = {:08x}: the top byte of the vector entry was not discarded", l.iter, h.vector, pc)));
+                }
+            }
+        }
         match outcome {
             Outcome::Ok => {}
             Outcome::Abort(a) if a == "step-cap" => {
@@ -521,6 +531,7 @@ pub fn generate(rng: &mut Rng, tier: Tier, frames: bool) -> Scn {
         vec_top: rng.u8(),
         sub_delay: rng.range(1, 10) as u16,
         init_ccr: if rng.chance(1, 2) { Some(rng.u8() & 0x7f) } else { Some(0x80 | rng.u8()) },
+        stack_off: if rng.chance(1, 2) { 0 } else { 4 * rng.below(64) as u16 },
     };
     let est = estimate_iters(&guest);
     // event schedule
